@@ -48,6 +48,9 @@ type Env struct {
 	BF   *FFile
 	FF   *FFile
 	Pool *Pool
+	// Assert is the header state assertion handed to NewFilterHeaderStore
+	// by Open (nil: none).
+	Assert *headerfs.FilterHeader
 }
 
 func (e *Env) Open() error {
@@ -61,7 +64,7 @@ func (e *Env) Open() error {
 		raw.Close()
 		return err
 	}
-	e.FS, err = headerfs.NewFilterHeaderStore(e.Dir, e.DB, headerfs.RegularFilter, Params, nil)
+	e.FS, err = headerfs.NewFilterHeaderStore(e.Dir, e.DB, headerfs.RegularFilter, Params, e.Assert)
 	if err != nil {
 		headerfs.VerifCloseBlockFile(e.BS)
 		raw.Close()
